@@ -8,7 +8,9 @@ from .facts import AnchorLost
 
 VERIF = os.path.dirname(os.path.dirname(os.path.abspath(__file__)))
 KNOWN_FILE = os.path.join(VERIF, "known_findings.json")
-EVIDENCE_DIR = os.path.join(VERIF, "evidence")
+# runs against a scratch copy (YLINT_REPO set by the self-test) must not overwrite the evidence of the real tree
+EVIDENCE_DIR = os.path.join(VERIF, "evidence") if os.environ.get("YLINT_REPO", "/repo") == "/repo" else \
+    os.path.join("/tmp", "ylint-scratch-evidence")
 
 
 class Ob:
